@@ -29,7 +29,12 @@ EXPLANATION = (
     "specification's (ids agree up to 8 and differ above, 9 is reserved) and each other's inverse. A "
     "`return` guarded by a failed error predicate (a static bool helper whose every false return records "
     "a decoder error) is an error exit of the balance rule. A binary field written from a (pointer member, "
-    "length member) pair uses the length member that the parser fills for the same pointer member. Decides these clauses, not value equality for "
+    "length member) pair uses the length member that the parser fills for the same pointer member. Round trip (7): a "
+    "fully populated FileMetaData / data page header / dictionary page header is laid out abstractly (a unique "
+    "marker per scalar member, every presence flag set, lists of two, a named block per string), the public "
+    "writer is executed with the encoder primitives hooked, the tree of (field id, wire type, value) it emits is "
+    "replayed into the public parser executed with the decoder primitives hooked, and every member the writer "
+    "serialised must come back in the same member - independent of how writer and parser are organised. Decides these clauses, not value equality for "
     "extreme integers/strings.")
 
 PT = "src/thrift/parquet_types.c"
@@ -422,7 +427,7 @@ def _binary_pairs(ctx):
     return n
 
 
-def run(ctx):
+def _run(ctx):
     P = ctx.P
     ctx.clause("C13.1 writer<->parser agreement per field (id, wire type, member, presence, list element)")
     ctx.clause("C13.2 both <-> parquet.thrift frozen table; required fields unconditional")
@@ -433,6 +438,10 @@ def run(ctx):
     nlt = logicaltype.check(ctx)
     ctx.floor("C13 logical type table rows", nlt, 30)
 
+    ctx.clause("C13.7 serialise-then-parse of FileMetaData and the page headers on an abstract fully populated object returns every serialised member in the member it came from")
+    from ..rules import thriftrt
+    nrt = thriftrt.check(ctx)
+    ctx.floor("C13 round-trip probes", nrt, 3)
     ctx.clause("C13.6 a binary field is written with the length member the parser fills for the same bytes")
     nbin = _binary_pairs(ctx)
     ctx.floor("C13 binary (pointer, length) pairs written", nbin, 4)
@@ -920,3 +929,12 @@ def _is_nibble(t):
         o = t[3] if t[2] == ("int", 15) else t[2]
         return o[0] == "bin" and o[1] == ">>" and o[3] == ("int", 4)
     return t[0] == "bin" and t[1] == ">>" and t[3] == ("int", 4)
+
+
+def run(ctx):
+    _run(ctx)
+    from ..rules import thriftrt
+    from .. import report
+    probes = [o for o in ctx.obs if o.key.startswith(("spec|", "roundtrip|"))]
+    decided = len(probes) >= 6 and not any(o.status == report.INCONCLUSIVE for o in probes)
+    ctx.count("extraction_gaps_settled_by_probe", thriftrt.settle_extraction(ctx, decided))
